@@ -49,6 +49,8 @@ def run(ctx):
     eng = Engine(facts, precision=1 if tier == "thorough" else 0)
     obs = eng.analyze([(p, None) for p in api])
     assume = load_assumptions()
+    by_sig = {a["sig"]: a for a in assume.values() if a.get("sig")}
+    sig_used = {}
     counts = {"discharged": 0, "assumed": 0, "constant": 0, "failed": 0}
     used = set()
     for key, o in sorted(obs.items()):
@@ -60,7 +62,16 @@ def run(ctx):
             run.note("input-independent (settled by any run, not claimed): %s -- %s" % (key, o.detail[:120]))
             continue
         a = assume.get(key)
+        if a is None:
+            # the same site after a rename of locals: matched by its name-free signature, at most `count` (default 1)
+            # undischarged obligations per listed assumption - a second site with the same shape is still reported
+            a2 = by_sig.get(getattr(o, "sig", None))
+            if a2 is not None and sig_used.get(a2["key"], 0) < a2.get("count", 1) and a2["key"] not in obs:
+                sig_used[a2["key"]] = sig_used.get(a2["key"], 0) + 1
+                a = a2
         if a is not None:
+            key_ = key
+            key = a["key"]
             used.add(key)
             if a.get("quick_only") and tier == "thorough":
                 run.bad("C14.O", key, "marked provable at the thorough precision but not discharged: %s (context %s)" % (o.detail, o.ctx), o.where)
